@@ -169,12 +169,16 @@ def param_labels(cfg):
     return labs
 
 
-def _iv(v):
+def _iv(v, src=None):
+    """Interval from the configuration; a bound given as a string is a symbol ``IV_<string>`` (C08 end-to-end)."""
+    def b(x):
+        return src.get(f"IV_{x}") if isinstance(x, str) else float(x)
+
     if v is None:
         return None
     if isinstance(v[0], (list, tuple)):
-        return [tuple(float(x) for x in i) for i in v]
-    return (float(v[0]), float(v[1]))
+        return [tuple(b(x) for x in i) for i in v]
+    return (b(v[0]), b(v[1]))
 
 
 def build_model(cfg, src):
@@ -201,19 +205,19 @@ def build_model(cfg, src):
     kw = {}
     if cfg.get("constraints"):
         kw["clp_constraints"] = [
-            {"type": c["type"], "target": c["target"], **({"interval": _iv(c["interval"])} if c.get("interval") else {})}
+            {"type": c["type"], "target": c["target"], **({"interval": _iv(c["interval"], src)} if c.get("interval") else {})}
             for c in cfg["constraints"]
         ]
     if cfg.get("relations"):
         kw["clp_relations"] = [
             {"source": r["source"], "target": r["target"], "parameter": r["parameter"],
-             **({"interval": _iv(r["interval"])} if r.get("interval") else {})}
+             **({"interval": _iv(r["interval"], src)} if r.get("interval") else {})}
             for r in cfg["relations"]
         ]
     if cfg.get("penalties"):
         kw["clp_penalties"] = [
             {"type": "equal_area", "source": p["source"], "target": p["target"], "parameter": p["parameter"],
-             "source_intervals": _iv(p["source_intervals"]), "target_intervals": _iv(p["target_intervals"]),
+             "source_intervals": _iv(p["source_intervals"], src), "target_intervals": _iv(p["target_intervals"], src),
              "weight": src.get(f"PW_{i}")}
             for i, p in enumerate(cfg["penalties"])
         ]
